@@ -1580,9 +1580,10 @@ class Color(object):
     def parse_color_rgbp(values):
         """Parse SVG color, RGB percent value declarations"""
         ratio = 255.0 / 100.0
-        r = round(float(values[0]) * ratio)
-        g = round(float(values[1]) * ratio)
-        b = round(float(values[2]) * ratio)
+        # Percentages are clamped to 0%..100% (an infinite one cannot be rounded to an integer).
+        r = round(min(max(float(values[0]), 0.0), 100.0) * ratio)
+        g = round(min(max(float(values[1]), 0.0), 100.0) * ratio)
+        b = round(min(max(float(values[2]), 0.0), 100.0) * ratio)
         if values[3] is not None:
             opacity = float(values[3])
         else:
